@@ -63,3 +63,34 @@ package encoder
 //@   requires enc != nil
 //@   modifies enc.prefix, enc.indent
 //@   ensures same(enc.prefix, prefix) && same(enc.indent, indent)
+
+// ---- the encoder core as seen by its Go callers: what it appends to *buf is a
+// function of (val, opts) only (assumed; generated code is out of reach)
+//@ pure func encOK(val interface{}, opts Options) bool
+//@ pure func encOut(val interface{}, opts Options) string
+//@ func EncodeInto assumed "encoder core (runs generated code): appends encOut(val,opts) to *buf or fails, as a function of (val, opts)"
+//@   requires buf != nil
+//@   modifies *buf, (*buf)[_]
+//@   ensures (result == nil) == encOK(val, opts)
+//@   ensures base(*buf) == old(base(*buf)) || fresh(*buf)
+//@   ensures result == nil ==> len(*buf) == old(len(*buf)) + len(encOut(val, opts))
+//@   ensures result == nil ==> (forall k int :: 0 <= k && k < len(encOut(val, opts)) ==> (*buf)[old(len(*buf)) + k] == encOut(val, opts)[k])
+
+// StreamEncoder.Encode (C17): on the plain path the Writer receives exactly the
+// encoder's bytes followed by a newline unless NoEncoderNewline; an encode error
+// writes nothing; if any Write fails - including the newline's - the error is returned.
+//@ func (*StreamEncoder).Encode props C17
+//@   requires enc != nil && enc.w != nil
+//@   modifies $wlen, $wbuf, $wfail
+//@   ensures !encOK(val, enc.Opts) ==> (err != nil && $wlen == old($wlen) && $wfail == old($wfail))
+//@   ensures (len(enc.indent) == 0 && len(enc.prefix) == 0 && err == nil) ==> $wlen == old($wlen) + len(encOut(val, enc.Opts)) + ite(enc.Opts & NoEncoderNewline == 0, 1, 0)
+//@   ensures (len(enc.indent) == 0 && len(enc.prefix) == 0 && err == nil) ==> (forall k int :: 0 <= k && k < len(encOut(val, enc.Opts)) ==> $wbuf[old($wlen) + k] == encOut(val, enc.Opts)[k])
+//@   ensures (len(enc.indent) == 0 && len(enc.prefix) == 0 && err == nil && enc.Opts & NoEncoderNewline == 0) ==> $wbuf[old($wlen) + len(encOut(val, enc.Opts))] == 10
+//@   ensures forall k int :: 0 <= k && k < old($wlen) ==> $wbuf[k] == old($wbuf[k])
+//@   ensures err == nil ==> $wfail == old($wfail)
+//@   loop 0: invariant err == nil && $wfail == old($wfail) && out != nil && len(buf) <= len(*out) && base(buf) == base(*out) && off(buf) == off(*out) + len(*out) - len(buf)
+//@   loop 0: invariant encOK(val, enc.Opts) && len(*out) == len(encOut(val, enc.Opts)) && $wlen == old($wlen) + len(*out) - len(buf)
+//@   loop 0: invariant forall k int :: 0 <= k && k < len(*out) ==> (*out)[k] == encOut(val, enc.Opts)[k]
+//@   loop 0: invariant forall k int :: 0 <= k && k < len(*out) - len(buf) ==> $wbuf[old($wlen) + k] == (*out)[k]
+//@   loop 0: invariant forall k int :: 0 <= k && k < old($wlen) ==> $wbuf[k] == old($wbuf[k])
+//@   loop 0: decreases len(buf)
